@@ -2,7 +2,8 @@
 import random
 from vplib.api import Case, ok, err
 from oracle import xrefspec as X
-from oracle.pdfwriter import Obj, Free, Comp, Revision, write_file, Name, Ref
+from oracle.pdfwriter import Obj, Free, Comp, Revision, write_file, Name, Ref, ser, ser_name
+from oracle.canon import canon
 
 ID = "C02"
 LEVEL = "proof"
@@ -10,17 +11,20 @@ DESIGN_REF = "DESIGN.md §9 C02, §12.C02"
 COQ_TARGETS = ["Properties/C02", "Pins/C02"]
 THEOREMS = [("PdfV.Properties.C02", n) for n in
             ["C02_merge_latest", "C02_beyond_size", "C02_stream_roundtrip", "C02_stream_sections_roundtrip",
-             "C02_walk_latest", "C02_stream_no_panic", "C02_stream_bounded",
+             "C02_walk_latest", "C02_stream_no_panic", "C02_stream_bounded", "C02_table_roundtrip", "C02_table_row_20", "C02_table_total", "C02_locate_xref_total", "C02_lexer_progress",
+             "C02_section_roundtrip", "C02_xref_at_section", "C02_walk_latest_tables", "C02_object_at", "C02_locate_startxref", "C02_resolve_latest",
              "C02_merge_older_stream_refuted_before_fix"]]
 ANCHORS = ["backend.rs", "xref.rs", "parse_xref.rs", "lexer/mod.rs"]
-MODES = ["xr_merge", "xr_stream", "xr_table", "xr_locate", "xr_walk"]
+MODES = ["xr_merge", "xr_stream", "xr_table", "xr_locate", "xr_walk", "xr_section", "xr_open"]
 TRUSTED_BASE = ["coqc 8.16.1 kernel (vm_compute for table lemmas and witnesses; no native_compute)",
                 "gen/extract_xref.py (regenerates MAX_ID, HEADER, window, keywords, entry type codes, integer widths, lexer byte classes)",
                 "Extraction + ExtrOcamlBasic, ocamlfind ocamlopt 4.13.1, coq/driver/main.ml",
                 "harness pdfh (Rust, harness/src/modes/xref.rs), tools/vplib (comparison)",
                 "tools/oracle/xrefspec.py + pdfwriter.py + canon.py (history generator, section printers, file writer, expected values)"]
 ASSUMPTIONS = ["oracle of C02_walk_latest: reading one cross-reference section at a position (object parser, stream decoding) is a function "
-               "xref_at; the theorem's premise says it returns the sections and trailer the history wrote there (tested on every xr_walk/xr_all case)",
+               "xref_at; the theorem's premise says it returns the sections and trailer the history wrote there (tested on every xr_walk/xr_all case); "
+               "discharged for classic-table files (C02_xref_at_section, C02_walk_latest_tables, C02_resolve_latest: premises about the file's bytes only), "
+               "still an oracle for cross-reference streams and object streams",
                "usize = u64 (64-bit target); Primitive::Integer is i32",
                "bytes are < 256 (wf_bytes) in the section round-trip theorems"]
 RULE = ("histories of 1-6 updates over 1-40 numbers, every ordered pair (previous form, new form) in {absent,direct,compressed,free}^2 and "
@@ -219,6 +223,11 @@ def table_cases(rng, tier):
             body = X.print_table_rows(secs, eols=X.EOLS)
             tg = "eol:mixed"
         yield Case("xr_table", [body], expect=ok(*[X.section_text(f, es) for f, es in secs]), tags=["table-rt", tg])
+        # the printer of C02_table_roundtrip: any ISO white-space in the gaps, an end-of-line form per row
+        if i % 2 == 0:
+            body2 = X.print_table_layout(rng, secs if i % 8 else secs + [(first + 5, [])])
+            s2 = secs if i % 8 else secs + [(first + 5, [])]
+            yield Case("xr_table", [body2], expect=ok(*[X.section_text(f, es) for f, es in s2]), tags=["table-rt", "layout:any-white-space"])
         # malformed variants (never contain the letter 't', so the appended keyword is the first one)
         b = bytearray(body)
         for _ in range(rng.randint(1, 3)):
@@ -242,6 +251,163 @@ def table_cases(rng, tier):
                  b"0 1\n18446744073709551616 00000 n \n", b"0 1\n18446744073709551615 18446744073709551615 n \n",
                  b"+0 +1\n+5 +0 n\n", b"0 1\n-5 0 n\n", b"0 1\n5 0 x\n", b"%c\n0 1\n1 0 n%x\n", b"0 1\n1 0 n%x", b"0 1 1 0 f 7 1 9 0 n"):
         yield Case("xr_table", [body], kind="malformed", tags=["table-edge"])
+
+
+# ---- composed readers on classic-table files (XRef/At.v) -----------------------------------------------
+
+SEPS = [b" ", b"\n", b"\r\n", b"\t", b"  ", b"%c\n", b" %x y\r", b"\x00", b"\x0c"]
+
+
+def spell_dict(rng, d):
+    """a conforming spelling of a dictionary with arbitrary separators (white-space, comments) between the tokens"""
+    out = bytearray(b"<<")
+    for k, v in d.items():
+        out += rng.choice([b""] + SEPS) + ser_name(Name(k) if not isinstance(k, Name) else k)
+        sv = ser(v)
+        out += (rng.choice([b""] + SEPS) if sv[:1] in b"/[(<" else rng.choice(SEPS)) + sv
+    last = list(d.values())[-1] if d else None
+    out += (rng.choice(SEPS) if isinstance(last, Ref) and rng.random() < 0.5 else rng.choice([b""] + SEPS)) + b">>"
+    return bytes(out)
+
+
+def section_cases(rng, tier):
+    m = 40 if tier == "quick" else 1500
+    for i in range(m):
+        secs = []
+        first = rng.randrange(0, 60)
+        for _ in range(rng.randint(0 if i % 10 == 0 else 1, 4)):
+            cnt = rng.randint(0 if rng.random() < 0.1 else 1, 5)
+            es = [(rng.choice("fn"), rng.choice([0, 9, 9999999999, rng.randrange(10 ** 10)]), rng.choice([0, 1, 65535, rng.randrange(65536)]))
+                  for _ in range(cnt)]
+            secs.append((first, es))
+            first += cnt + rng.randrange(0, 3)
+        size = rng.choice([None, 0, 1, first + 1, 2 ** 31 - 1])
+        prev = rng.choice([None, None, 0, 17, 2 ** 31 - 1])
+        tr = {}
+        if rng.random() < 0.5:
+            tr["Root"] = Ref(1, 0)
+        if size is not None:
+            tr["Size"] = size
+        if rng.random() < 0.3:
+            tr["ID"] = [b"ab(c)", b"\x00\xff"]
+        if prev is not None:
+            tr["Prev"] = prev
+        if rng.random() < 0.2:
+            tr["Info"] = {"K": [Name("A#B"), True, None], "S": b"x"}
+        if not tr:
+            tr["X"] = Name("Y")
+        pos = rng.choice([0, 9, 1000, 2 ** 40])
+        tail = rng.choice([b"", b"\n", b"\nstartxref\n%d\n%%%%EOF\n" % pos, b" % c", b"\r\n1 0 obj"])
+        text = b"xref" + X.print_table_layout(rng, secs) + b"trailer" + rng.choice([b""] + SEPS) + spell_dict(rng, tr) + tail
+        exp = [X.section_text(f, es) for f, es in secs]
+        exp.append(b"%s %s" % (b"%d" % size if size is not None else b"-", b"%d" % prev if prev is not None else b"-"))
+        exp.append(canon(tr))
+        yield Case("xr_section", [b"%d" % pos, text], expect=ok(*exp), tags=["section-rt", "pos:%d" % min(pos, 1001)])
+        # /Size, /Prev that are not non-negative integers; missing dictionary; damaged text (model only)
+        bad = dict(tr)
+        bad[rng.choice(["Size", "Prev"])] = rng.choice([-1, Name("N"), b"s", [1], Ref(3, 0), None])
+        text2 = b"xref" + X.print_table_layout(rng, secs) + b"trailer\n" + ser(bad) + tail
+        yield Case("xr_section", [b"%d" % pos, text2, b"q"], kind="malformed", tags=["section-bad-trailer"])
+        b = bytearray(text)
+        for _ in range(rng.randint(1, 3)):
+            p = rng.randrange(len(b))
+            op = rng.randrange(4)
+            if op == 0:
+                b[p] = rng.choice(b"0123456789 \r\n fnx%+-/<>[(t")
+            elif op == 1:
+                del b[p:p + rng.randrange(1, 9)]
+            elif op == 2:
+                b.insert(p, rng.choice(b"0123456789 \r\n fn%+<>"))
+            else:
+                b = b[:p]
+        yield Case("xr_section", [b"%d" % pos, bytes(b), b"q"], kind="malformed", tags=["section-malformed"])
+    for text in (b"", b"xref", b"xref\ntrailer", b"xref\ntrailer\n<<>>", b"xref trailer<</Size 1>>stream", b"xreftrailer<<>>", b"xref\n0 1\n0000000000 65535 f \ntrailer 5",
+                 b"xref\ntrailer\n[1]", b"xref\ntrailer\n<</Size 1>>\nstream\n", b"5 0 obj\n<<>>\nendobj", b"%c\nxref\ntrailer<</Size 2/Prev 3>>"):
+        yield Case("xr_section", [b"0", text, b"q"], kind="malformed", tags=["section-edge"])
+
+
+def table_history(rng):
+    k = rng.randint(1, 5)
+    H = X.gen_history(rng, n_updates=k, max_num=rng.randint(1, 25), force=["table"] * k)
+    for r in H.revisions:
+        r.eol = rng.choice(X.EOLS)
+    return H
+
+
+def open_cases(rng, tier):
+    m = 40 if tier == "quick" else 1500
+    for i in range(m):
+        H = table_history(rng)
+        data, info = X.render(H)
+        vals, size = X.expected_values(H, info)
+        last = info["revisions"][-1]
+        tr = dict(H.revisions[-1].trailer)
+        if len(H.revisions) > 1:
+            tr["Prev"] = info["startxrefs"][-2]
+        tr["Size"] = last["size"]
+        exp = [(b"!" if v in (b"!FreeObject", b"!NullRef") else v) for v in vals] + [canon(tr)]
+        o = b"t" if rng.random() < 0.2 else b"s"
+        yield Case("xr_open", [o, b"%d" % size, data], expect=ok(*exp), tags=["open-rt", "updates:%d" % len(H.revisions)])
+        for k, rev in enumerate(H.revisions):
+            secs = X.sections_of(info["revisions"][k]["table"], rev.split)
+            pos = info["startxrefs"][k]
+            prev = info["startxrefs"][k - 1] if k else None
+            e = [X.section_text(f, es) for f, es in secs]
+            e.append(b"%d %s" % (info["revisions"][k]["size"], b"%d" % prev if prev is not None else b"-"))
+            if i % 4 == 0:
+                yield Case("xr_section", [b"%d" % pos, data[pos:], b"q"], expect=ok(*e), tags=["section-in-file"])
+        # damaged chains: /Prev cycles, /Prev beyond the file or into an object, /Size too small / too big, flipped row kinds
+        b = bytearray(data)
+        kind = rng.randrange(5)
+        import re as _re
+        if kind == 0:
+            ms = list(_re.finditer(rb"/Prev (\d+)", data))
+            if ms:
+                mm = rng.choice(ms)
+                new = rng.choice([info["startxrefs"][-1], len(data) + 5, 9, 0, info["startxrefs"][0] + 1])
+                b[mm.start(1):mm.end(1)] = b"%d" % new
+        elif kind == 1:
+            ms = list(_re.finditer(rb"/Size (\d+)", data))
+            mm = ms[-1]
+            b[mm.start(1):mm.end(1)] = b"%d" % rng.choice([0, 1, 2, 1000001, 1000000])
+        elif kind == 2:
+            ms = list(_re.finditer(rb"\d{10} \d{5} ([nf])", data))
+            if ms:
+                mm = rng.choice(ms)
+                b[mm.start(1):mm.end(1)] = b"f" if data[mm.start(1):mm.end(1)] == b"n" else b"n"
+        elif kind == 3:
+            ms = list(_re.finditer(rb"(\d{10}) \d{5} n", data))
+            if ms:
+                mm = rng.choice(ms)
+                b[mm.start(1):mm.end(1)] = b"%010d" % rng.choice([0, 5, len(data), len(data) + 1, 9999999999, info["startxrefs"][-1]])
+        else:
+            ms = list(_re.finditer(rb"startxref\n(\d+)", data))
+            mm = ms[-1]
+            b[mm.start(1):mm.end(1)] = b"%d" % rng.choice([0, 3, len(data), info["startxrefs"][0]] + [info["offsets"][k0] for k0 in sorted(info["offsets"])[:1]])
+        if bytes(b) != data:
+            yield Case("xr_open", [o, b"%d" % size, bytes(b)], kind="malformed", tags=["open-damaged", "damage:%d" % kind])
+
+
+def open_boundary_cases(rng):
+    """/Size at the limit MAX_ID (accepted) and above it (refused); a /Prev cycle; a section whose /Prev is itself"""
+    for size, good in ((1000000, True), (1000001, False)):
+        revs = [Revision({1: Obj({"A": 1})}, fmt="table", trailer={"VpRev": 0}, size=size)]
+        data, info = write_file(revs)
+        if good:
+            exp = [b"!", canon({"A": 1}), b"!", canon({"VpRev": 0, "Size": size})]
+            yield Case("xr_open", [b"s", b"3", data], expect=ok(*exp), tags=["open-size-limit"])
+        else:
+            yield Case("xr_open", [b"s", b"3", data], expect=err(), kind="malformed", tags=["open-size-limit"])
+    revs = [Revision({1: Obj({"A": 1})}, fmt="table", trailer={"VpRev": 0, "Pad": 11111}), Revision({1: Obj({"A": 2})}, fmt="table", trailer={"VpRev": 1})]
+    data, info = write_file(revs)
+    a, b = info["startxrefs"]
+    assert data.count(b"/Pad 11111") == 1 and b < 10000
+    good = [b"!", canon({"A": 2}), canon({"VpRev": 1, "Prev": a, "Size": 2})]
+    yield Case("xr_open", [b"s", b"2", data], expect=ok(*good), tags=["open-prev-cycle"])
+    cyc = data.replace(b"/Pad 11111", b"/Prev %04d" % b)      # same length: the oldest section points to the newest one
+    yield Case("xr_open", [b"s", b"2", cyc], expect=err(), kind="malformed", tags=["open-prev-cycle"])
+    self_ = data.replace(b"/Pad 11111", b"/Prev %04d" % a)    # the oldest section points to itself
+    yield Case("xr_open", [b"s", b"2", self_], expect=err(), kind="malformed", tags=["open-prev-cycle"])
 
 
 def merge_malformed(rng, tier):
@@ -270,6 +436,12 @@ def generate(rng, tier):
     for c in stream_cases(rng, tier):
         yield c
     for c in table_cases(rng, tier):
+        yield c
+    for c in section_cases(rng, tier):
+        yield c
+    for c in open_cases(rng, tier):
+        yield c
+    for c in open_boundary_cases(rng):
         yield c
     for c in merge_malformed(rng, tier):
         yield c
